@@ -13,7 +13,7 @@ Definition old_full (b : backend) : bool := match b with Badger | Pebble => true
 Definition hook_writes_prefix (b : backend) (e : event) : list wr :=
   match e with
   | EDisconnect c expire =>
-      (if old_full b then [update_client c] else []) ++
+      (if old_full b then [WSet TCL (cr_id (rc_rec c)) (SClient (rc_rec c))] else []) ++
       (if expire && negb (rc_takenover c) then [WDel TCL (cr_id (rc_rec c))] else [])
   | EQosPublish cid p sent =>
       let m := inflight_record cid p sent in
